@@ -9,7 +9,7 @@ import pytenet as ptn
 from gen_qn import mpo_desc, mps_desc, hermitian_mpo_from, build_mps, _pref_order
 from oracle_dense import mpo_to_mat, mps_to_vec, basis_charges
 
-MODELS = ['xxz', 'random', 'ising', 'xxz1', 'bose', 'fermi_hubbard', 'random']
+MODELS = ['xxz', 'random', 'ising', 'xxz1', 'bose', 'fermi_hubbard', 'random', 'molecular', 'spin_molecular']
 
 
 @st.composite
@@ -18,8 +18,24 @@ def ham_desc(draw, Lmin=1, Lmax=5, dense_cap=256, models=MODELS):
     if m == 'random':
         op = draw(mpo_desc(Lmin=Lmin, Lmax=Lmax, dmin=2, dmax=3, Dmax=3, styles=['complex', 'complex', 'real'], zero_shift=True, dense_cap=dense_cap))
         return {'kind': 'random', 'op': op, 'L': len(op['qD']) - 1, 'd': len(op['qd'])}
-    d = {'ising': 2, 'xxz': 2, 'xxz1': 3, 'fermi_hubbard': 4}.get(m)
+    d = {'ising': 2, 'xxz': 2, 'xxz1': 3, 'fermi_hubbard': 4, 'molecular': 2, 'spin_molecular': 4}.get(m)
     h = {'kind': 'model', 'model': m}
+    if m in ('molecular', 'spin_molecular'):
+        # Hermitian molecular Hamiltonians: hermitian one-body, real symmetric two-body coefficients
+        lo = 2 if m == 'spin_molecular' else 1
+        hi = min(Lmax, 3 if m == 'spin_molecular' else 5)
+        h['optimize'] = draw(st.booleans())
+        if m == 'molecular' and not h['optimize']:
+            lo = 4
+        Ls = [l for l in range(max(lo, Lmin), hi + 1) if d ** l <= dense_cap]
+        if not Ls:
+            h['optimize'] = True
+            Ls = [l for l in range(max(1, Lmin), hi + 1) if d ** l <= dense_cap] or [max(1, Lmin)]
+        h['L'] = draw(st.sampled_from(Ls[::-1]))
+        h['seed'] = draw(st.integers(0, 10**6))
+        h['d'] = d
+        h['params'] = []
+        return h
     if m == 'bose':
         d = draw(st.sampled_from([2, 3, 4])); h['d'] = d
     Lcap = Lmax
@@ -46,6 +62,12 @@ def build_ham(h):
         return ptn.bose_hubbard_mpo(h['d'], L, *p)
     if m == 'fermi_hubbard':
         return ptn.fermi_hubbard_mpo(L, *p)
+    if m in ('molecular', 'spin_molecular'):
+        from props.c07 import coefficients
+        t, v = coefficients(L, 'symmetric', h['seed'])
+        if m == 'molecular':
+            return ptn.molecular_hamiltonian_mpo(t, v, optimize=h['optimize'])
+        return ptn.spin_molecular_hamiltonian_mpo(t, v, optimize=h['optimize'])
     raise ValueError(m)
 
 
@@ -62,8 +84,10 @@ def ham_qd(h):
         return [1, 0, -1]
     if m == 'bose':
         return list(range(h['d']))
-    if m == 'fermi_hubbard':
+    if m in ('fermi_hubbard', 'spin_molecular'):
         return [(a << 16) + b for a, b in zip([0, 1, 1, 2], [0, -1, 1, 0])]
+    if m == 'molecular':
+        return [0, 1]
     raise ValueError(m)
 
 
